@@ -181,7 +181,7 @@ func (l c08) Exec(env *core.Env) *core.Result {
 	mkBlob := func() *trustpolicy.BlobDocument {
 		var sts []trustpolicy.BlobTrustPolicy
 		for i := 0; i < 3; i++ {
-			l := c08Levels[i]
+			l := c08Levels[[]int{3, 4, 1}[i]] // two of the three blob statements carry a custom override map
 			sts = append(sts, world.BlobStatement(fmt.Sprintf("blob-%d", i), l.level, l.override, []string{"ca:b" + fmt.Sprint(i)}, []string{"*"}, i == 1 && w["blobGlobal"] == 1))
 		}
 		return world.BlobDoc(sts...)
